@@ -209,6 +209,7 @@ type c19Case struct {
 	delay   int64  // ms between shutdown and restart
 	a, b    [][]string
 	stray   []string // files that appear next to the snapshots before the restart (name suffixes after the base path)
+	base    string   // persist path (default c19Base)
 }
 
 func c19Fixtures() [][]Op {
@@ -385,6 +386,13 @@ func c19List(tier string) (out []c19Case, nHist, nCrash int) {
 	for _, stray := range [][]string{{".db16"}, {".db-1"}, {".db99999999999"}, {".db"}, {".dbx"}, {".db1.tmp", ".db0.tmp"}, {".db01x"}, {"2.db0"}, {".db3.bak", ".db+2"}, {".db16", ".db-1", ".dbx", ".db0.tmp"}} {
 		out = append(out, c19Case{kind: "hist", fixture: 2, ops: [][]string{{"SET", "kn", "v"}}, saveAt: []bool{true, true}, stray: stray})
 	}
+	out = append(out, c19FlushCases()...)
+	// persist paths that are not plain words: characters that mean something to a pattern matcher, spaces, dots,
+	// non-ASCII, a base name that is a prefix of another's
+	for _, b := range []string{"data/per[s]ist", "data/p*st", "data/p?rsist", "data/per\\sist", "da ta/per sist", "data/persist.db", "data/persist.db1", "data/\xc3\xa4\xe2\x82\xac", "d.a.t.a/p.e.r", "persist", "./persist", "data/{a,b}", "data/^x$"} {
+		out = append(out, c19Case{kind: "hist", fixture: 2, ops: [][]string{{"SET", "kn", "v"}}, saveAt: []bool{true, true}, base: b},
+			c19Case{kind: "hist", fixture: 2, ops: [][]string{{"SELECT", "1"}, {"RPUSH", "kl", "c"}}, saveAt: []bool{false, false, true}, base: b})
+	}
 	nHist = len(out)
 	for _, t := range c19Transitions(tier) {
 		out = append(out, c19Case{kind: "crash", a: t.a, b: t.b})
@@ -409,6 +417,51 @@ func c19Counts(tier string) (int, int) {
 	return a, b
 }
 
+// c19FlushCases: a database that has been emptied by deletions that are not saved yet is flushed: the keys
+// must not come back with a restart (a seeded change of wave 8 let a flush of an empty database skip the
+// dirty mark - which lives in the dictionary the flush replaces). Also run as part of C14's check: what
+// FLUSHDB / FLUSHALL empty stays empty.
+func c19FlushCases() []c19Case {
+	var out []c19Case
+	for _, db := range []string{"0", "1", "15"} {
+		for _, create := range [][]string{{"SET", "kn", "new"}, {"RPUSH", "kn", "a", "b"}, {"HSET", "kn", "f", "v"}, {"SADD", "kn", "m"}} {
+			for _, empty := range [][]string{{"DEL", "kn"}, {"UNLINK", "kn"}, {"RENAME", "kn", "kn"}, {"FLUSHDB"}} {
+				for _, flush := range [][]string{{"FLUSHALL"}, {"FLUSHDB"}, {"FLUSHALL", "SYNC"}} {
+					if db != "0" && (create[0] != "SET" || empty[0] == "RENAME") {
+						continue
+					}
+					ops := [][]string{{"SELECT", db}, create, empty, flush}
+					// saved after the creation, not after the emptying; the flush is followed by the final save
+					out = append(out, c19Case{kind: "hist", fixture: 3, ops: ops, saveAt: []bool{false, false, true, false, true}},
+						c19Case{kind: "hist", fixture: 3, ops: ops, saveAt: []bool{false, false, true, true, true}})
+				}
+			}
+		}
+	}
+	return out
+}
+
+func init() {
+	// C14: the flush histories above, judged as in C19 (state before the shutdown = state after the restart)
+	prev := extraRunners["C14"]
+	extraRunners["C14"] = func(tier string, rep *Report) {
+		if prev != nil {
+			prev(tier, rep)
+		}
+		redisemu.VInit()
+		n, bad := 0, 0
+		for _, cs := range c19FlushCases() {
+			n++
+			if r := runC19(cs); r.Status == "violation" {
+				bad++
+				rep.add("flush-then-restart|"+r.Sig, r.Detail, r.Trace)
+			}
+		}
+		rep.Coverage["flush_restart_histories"] = n
+		rep.Coverage["flush_restart_violations"] = bad
+	}
+}
+
 func c19Cases(tier string) *caseList {
 	l := c19Get(tier)
 	return &caseList{N: len(l), Run: func(i int) caseResult { return runC19(l[i]) }, Name: func(i int) string { return c19Name(l[i]) }, Class: func(i int) string { return c19Class(l[i]) }}
@@ -422,6 +475,9 @@ func c19Name(cs c19Case) string {
 	parts = append(parts, fmt.Sprintf("fixture%d", cs.fixture))
 	if len(cs.stray) > 0 {
 		parts = append(parts, "stray files "+strings.Join(cs.stray, " "))
+	}
+	if cs.base != "" {
+		parts = append(parts, fmt.Sprintf("persist path %q", cs.base))
 	}
 	if cs.saveAt[0] {
 		parts = append(parts, "save")
@@ -459,6 +515,9 @@ func c19Class(cs c19Case) string {
 	if len(cs.stray) > 0 {
 		return "stray" + strings.Join(cs.stray, "")
 	}
+	if cs.base != "" {
+		return "path:" + cs.base
+	}
 	return strings.Join(n, "+")
 }
 
@@ -469,6 +528,10 @@ func runC19(cs c19Case) (cr caseResult) {
 		return runC19Crash(cs)
 	}
 	cr.Units = 1
+	base := c19Base
+	if cs.base != "" {
+		base = cs.base
+	}
 	redisemu.VResetGlobals()
 	vos.ResetFS()
 	verifrt.SetNow(time.UnixMilli(epochMs).UTC())
@@ -480,7 +543,7 @@ func runC19(cs c19Case) (cr caseResult) {
 	s := verifrt.NewSched(nil)
 	s.Horizon = 3000000
 	s.Run(func() {
-		vi := redisemu.VNew(c19Base)
+		vi := redisemu.VNew(base)
 		cl := vi.NewClient()
 		for _, f := range c19Fixtures()[cs.fixture] {
 			cl.Do(f.Args...)
@@ -516,9 +579,9 @@ func runC19(cs c19Case) (cr caseResult) {
 		}
 		for _, suffix := range cs.stray {
 			// something else wrote files with similar names into the directory: none of them is a database of ours
-			vos.WriteFile(c19Base+suffix, []byte("not a snapshot"), 0o644)
+			vos.WriteFile(base+suffix, []byte("not a snapshot"), 0o644)
 		}
-		vi2 := redisemu.VNew(c19Base)
+		vi2 := redisemu.VNew(base)
 		cl2 := vi2.NewClient()
 		if after, derr = dumpDBs(cl2); derr != nil {
 			return
